@@ -3,7 +3,8 @@
    complete(); channel operations and the swap are stuttering steps; a caller blocked on a
    channel whose batch already has its verdict corresponds to a caller that has returned. *)
 From Oras Require Import Base.Prelude Model.Referrers Proofs.Referrers Model.Merge Proofs.Merge
-  Model.MergeFine Proofs.MergeFine Proofs.MergeFine2 Proofs.MergeLin Proofs.MergeThm.
+  Model.MergeFine Proofs.MergeFine Proofs.MergeFineGet Proofs.MergeFineMain Proofs.MergeFineAssign Proofs.MergeFineWake
+  Proofs.MergeFine2 Proofs.MergeLin Proofs.MergeThm.
 From Coq Require Import Lia.
 
 Definition rel_pc (f : fstate) (p : fpc) (q : pc) : Prop :=
